@@ -13,6 +13,23 @@ def currentKeyJ (rc : Json) : Option Json :=
   | "roll_old" => (jarr p)[0]?
   | _ => none
 
+/-- Every key of a resource class that holds a certificate of the parent (`KeyState` serialisation): the current key
+and the new or old key of a roll in progress; a pending key has none. -/
+def certifiedKeysJ (rc : Json) : List String :=
+  let (v, p) := jvariant (jget rc "key_state")
+  let ks : List Json := match v with
+    | "active" => [p]
+    | "roll_pending" => ((jarr p)[1]?).toList
+    | "roll_new" | "roll_old" => jarr p
+    | _ => []
+  (ks.filter fun k => !(jisNull (jget k "incoming_cert"))).map fun k => jstr (jget k "key_id")
+
+/-- (parent, key) for every certified key of CA `h` under `parent` (every parent when `none`). -/
+def classKeysOf (prev : Json) (h : String) (parent : Option String) : List (String × String) :=
+  (jfields (jpath prev ["cas", h, "resources"])).flatMap fun (_, rc) =>
+    let p := jstr (jget rc "parent_handle")
+    if parent.isSome && parent != some p then [] else (certifiedKeysJ rc).map fun k => (p, k)
+
 def pendingTasks (obs : Json) : List (String × String) :=
   (jarr (jpath obs ["tasks", "pending"])).map fun t => match jarr t with
     | [n, w] => (jstr n, jstr w)
